@@ -110,7 +110,7 @@ func goEnv() []string {
 }
 
 func loadCfg(id string) propCfg {
-	c := propCfg{Shards: 16, TimeoutQuick: "240s", TimeoutThorough: "1500s"}
+	c := propCfg{Shards: 16, TimeoutQuick: "1500s", TimeoutThorough: "10800s"}
 	b, err := os.ReadFile(filepath.Join(root, "props", strings.ToLower(id), "verif.json"))
 	if err == nil {
 		json.Unmarshal(b, &c)
